@@ -388,6 +388,22 @@ impl KotoVm {
         function: KValue,
         args: CallArgs,
     ) -> Result<KValue> {
+        // Early returns in the operation can leave registers that were pushed for it on the stack,
+        // so the stack is restored here when the operation fails.
+        let register_count = self.registers.len();
+        let result = self.call_and_run_function_inner(instance, function, args);
+        if result.is_err() {
+            self.registers.truncate(register_count);
+        }
+        result
+    }
+
+        fn call_and_run_function_inner(
+        &mut self,
+        instance: Option<KValue>,
+        function: KValue,
+        args: CallArgs,
+    ) -> Result<KValue> {
         if !function.is_callable() {
             return unexpected_type("Function", &function);
         }
@@ -474,6 +490,17 @@ impl KotoVm {
 
     /// Provides the result of running a unary operation on a KValue
     pub fn run_unary_op(&mut self, op: UnaryOp, value: KValue) -> Result<KValue> {
+        // Early returns in the operation can leave registers that were pushed for it on the stack,
+        // so the stack is restored here when the operation fails.
+        let register_count = self.registers.len();
+        let result = self.run_unary_op_inner(op, value);
+        if result.is_err() {
+            self.registers.truncate(register_count);
+        }
+        result
+    }
+
+        fn run_unary_op_inner(&mut self, op: UnaryOp, value: KValue) -> Result<KValue> {
         use UnaryOp::*;
 
         let old_frame_count = self.call_stack.len();
@@ -515,6 +542,17 @@ impl KotoVm {
 
     /// Provides the result of running a binary operation on a pair of Values
     pub fn run_binary_op(&mut self, op: BinaryOp, lhs: KValue, rhs: KValue) -> Result<KValue> {
+        // Early returns in the operation can leave registers that were pushed for it on the stack,
+        // so the stack is restored here when the operation fails.
+        let register_count = self.registers.len();
+        let result = self.run_binary_op_inner(op, lhs, rhs);
+        if result.is_err() {
+            self.registers.truncate(register_count);
+        }
+        result
+    }
+
+        fn run_binary_op_inner(&mut self, op: BinaryOp, lhs: KValue, rhs: KValue) -> Result<KValue> {
         let old_frame_count = self.call_stack.len();
 
         let result_register = self.new_frame_base()?;
@@ -594,6 +632,22 @@ impl KotoVm {
         container: KValue,
         read_arg: KValue,
     ) -> Result<KValue> {
+        // Early returns in the operation can leave registers that were pushed for it on the stack,
+        // so the stack is restored here when the operation fails.
+        let register_count = self.registers.len();
+        let result = self.run_read_op_inner(op, container, read_arg);
+        if result.is_err() {
+            self.registers.truncate(register_count);
+        }
+        result
+    }
+
+        fn run_read_op_inner(
+        &mut self,
+        op: ReadOp,
+        container: KValue,
+        read_arg: KValue,
+    ) -> Result<KValue> {
         let old_frame_count = self.call_stack.len();
 
         let result_register = self.new_frame_base()?;
@@ -624,6 +678,23 @@ impl KotoVm {
 
     /// Provides the result of running a write operation (i.e. via access or index)
     pub fn run_write_op(
+        &mut self,
+        op: WriteOp,
+        container: KValue,
+        write_arg: KValue,
+        write_value: KValue,
+    ) -> Result<KValue> {
+        // Early returns in the operation can leave registers that were pushed for it on the stack,
+        // so the stack is restored here when the operation fails.
+        let register_count = self.registers.len();
+        let result = self.run_write_op_inner(op, container, write_arg, write_value);
+        if result.is_err() {
+            self.registers.truncate(register_count);
+        }
+        result
+    }
+
+        fn run_write_op_inner(
         &mut self,
         op: WriteOp,
         container: KValue,
